@@ -861,6 +861,10 @@ pub fn run(ctx: &Ctx) -> Collector {
             return col;
         }
     };
+    // (c) runs all executions of a program in this one process: if the subject keeps process-wide state (a correct
+    // cache is enough) the sequence of named points of an execution depends on what ran before, and a schedule
+    // prefix can stop replaying. That is recorded here and judged after (d), whose executions are fork-isolated.
+    let c_divergences: Mutex<Vec<String>> = Mutex::new(vec![]);
     let sched_total = AtomicU64::new(0);
     #[allow(unused_assignments)]
     let mut fine_total = 0u64;
@@ -906,7 +910,7 @@ pub fn run(ctx: &Ctx) -> Collector {
             }
         }
         if let Some(m) = machinery {
-            col.machinery_error(format!("{} ({} points): {}", p.name, if fine { "fine" } else { "coarse" }, m));
+            c_divergences.lock().unwrap().push(format!("{} ({} points): {}", p.name, if fine { "fine" } else { "coarse" }, m));
         }
         if ex.capped {
             col.cap_hit(&format!("{} ({} points): schedule cap {} reached at preemption bound {}", p.name, if fine { "fine" } else { "coarse" }, cap, bound));
@@ -972,8 +976,18 @@ pub fn run(ctx: &Ctx) -> Collector {
             col.space(json!({"name": "(d) schedules at function-entry granularity", "cases": n, "k": rep["k"], "preemption_bound": rep["preemption_bound"], "what": "all interleavings with <= 1 preemption at candidate points = the first k entries of every (function, call site) pair in every operation, fast_qr compiled at opt-level 0 with -Zinstrument-mcount (every function entered inside the crate, including std generics and inline std functions such as Mutex::lock / Atomic*::load instantiated there); programs under fine_schedule_programs", "exhaustive": true, "wall_s": rep["wall_s"]}));
             col.sample(json!({"kind": "schedule-fine", "program": 0, "k": 1, "choices": [[0, 700], [1, 1]]}));
             fine_total = n;
+            let divs: Vec<String> = c_divergences.lock().unwrap().drain(..).collect();
+            if !divs.is_empty() {
+                for d in divs.iter().take(4) {
+                    col.cap_hit(&format!("(c) {} — the sequence of named scheduling points depends on what ran earlier in the process (the subject keeps process-wide state); this program is decided by (d), whose executions each run in a fresh process", d));
+                }
+                col.assume("WEAKENED: sub-exploration (c) could not replay its schedule prefixes for some programs (process-wide state in the subject); schedules are decided by (d) for those");
+            }
         }
         Err(e) => {
+            for d in c_divergences.lock().unwrap().drain(..) {
+                col.machinery_error(d);
+            }
             eprintln!("NOTE: C14 (d) fine-grained schedule exploration did not run: {}", e);
             col.cap_hit(&format!("(d) function-entry-granularity schedule exploration did not run: {}", e));
             col.assume("WEAKENED: sub-exploration (d) did not run; schedules are covered at the guarded scheduling points only");
